@@ -17,6 +17,8 @@ pub enum Val {
     Seq(Vec<Val>),
     Span(Sp, Box<Val>),
     OnlySpan(Sp),
+    /// the span of "the rest of the input" (InputRef::span_from): re-based separately, see srcsim::compare
+    RestSpan(Sp),
     Opt(Option<Box<Val>>),
     Num(u64),
     St(u64, u64, Box<Val>),
@@ -32,6 +34,7 @@ impl Val {
             Val::Seq(v) => v.iter().fold(3, |h, x| fold(h, x.digest())),
             Val::Span(s, v) => fold(fold(fold(4, s.1 as u64), s.2 as u64), v.digest()),
             Val::OnlySpan(s) => fold(fold(5, s.1 as u64), s.2 as u64),
+            Val::RestSpan(s) => fold(fold(11, s.1 as u64), s.2 as u64),
             Val::Opt(None) => 6,
             Val::Opt(Some(v)) => fold(7, v.digest()),
             Val::Num(n) => fold(8, *n),
@@ -49,6 +52,7 @@ impl Val {
             Val::Seq(v) => v.iter().fold(3, |h, x| fold(h, x.shape())),
             Val::Span(_, v) => fold(4, v.shape()),
             Val::OnlySpan(_) => 5,
+            Val::RestSpan(_) => 11,
             Val::Opt(None) => 6,
             Val::Opt(Some(v)) => fold(7, v.shape()),
             Val::Num(n) => fold(8, *n),
@@ -70,6 +74,20 @@ impl Val {
             Val::OnlySpan(s) => out.push(s),
             Val::Opt(Some(v)) => v.spans_mut(out),
             Val::St(_, _, v) => v.spans_mut(out),
+            _ => {}
+        }
+    }
+    /// the RestSpan values only (spans_mut does not visit them)
+    pub fn rest_spans_mut<'a>(&'a mut self, out: &mut Vec<&'a mut Sp>) {
+        match self {
+            Val::Seq(v) => {
+                for x in v {
+                    x.rest_spans_mut(out)
+                }
+            }
+            Val::Span(_, v) | Val::St(_, _, v) => v.rest_spans_mut(out),
+            Val::RestSpan(s) => out.push(s),
+            Val::Opt(Some(v)) => v.rest_spans_mut(out),
             _ => {}
         }
     }
@@ -158,6 +176,11 @@ impl Outcome {
                 }
             }
             Outcome::Panicked { .. } => {}
+        }
+    }
+    pub fn rest_spans_mut<'a>(&'a mut self, out: &mut Vec<&'a mut Sp>) {
+        if let Outcome::Finished { out: Some(v), .. } = self {
+            v.rest_spans_mut(out);
         }
     }
     pub fn map_spans(&mut self, f: &dyn Fn(Sp) -> Sp) {
